@@ -146,7 +146,7 @@ def main(argv=None):
     # only contract-level names are stable across harmless refactors (safety/loop names quote source text / ordinals)
     stable = lambda n: (any(f'/{k}[' in n for k in ('ensures', 'ensures.inv', 'raises', 'yield.ensures')) and '@fault[' not in n and '/crash[' not in n) or n.startswith('lemma:')
     missing = sorted(n for n in base_names - set(obligations) if stable(n)) if not unsupported else []
-    violations, known_hits, replays = [], [], []
+    violations, known_hits, replays, loop_downgraded = [], [], [], []
     os.makedirs(os.path.join(HERE, 'out', 'replay'), exist_ok=True)
     for o in refuted:
         k = match_known(known, prop, o['name'])
@@ -155,6 +155,13 @@ def main(argv=None):
             continue
         rp = run_replay(P, prop, o, a.repo)
         replays.append(rp)
+        if o.get('via_loop') and not rp.get('reproduced'):
+            # counter-model reached through a loop abstraction and not reproducible on the real code: undecided, not a violation
+            # (a new or rewritten loop whose invariant is not in the candidate pool gives exactly this picture on correct code)
+            o['status'] = 'open'
+            o['reason'] = 'finite-scope counter-model depends on a loop abstraction and did not replay on the real code'
+            loop_downgraded.append(o)
+            continue
         violations.append((o, rp))
     # bounded stand-in for what the verifier could not decide (never counted as proved)
     bounded = []
@@ -194,8 +201,10 @@ def main(argv=None):
         print(f"  failed obligation: {o['name']}")
         if rp.get('summary'):
             print(f"  replay: {rp['summary']}")
+    open_ = open_ + loop_downgraded
+    refuted = [o for o in refuted if o not in loop_downgraded]
     for o in open_:
-        print(f"UNDECIDED (not a violation): {o['name']} [{o.get('reason', '')[:80]}]")
+        print(f"UNDECIDED (not a violation): {o['name']} [{o.get('reason', '')[:110]}]")
     for f, why in unsupported.items():
         print(f'OUTSIDE FRAGMENT (not a violation): {f}: {why}')
     for m in missing:
